@@ -852,6 +852,119 @@ pub fn do_op<K: KeyT, V: ValT>(m: &mut Map<K, V>, w: &[&str], chk: &mut Vec<Stri
             let parts: Vec<String> = got.iter().map(|o| match o { Some((k, s, v)) => format!("{}:{}:{}", k, s, v), None => "none".into() }).collect();
             return OutRaw(format!("opts {}", if parts.is_empty() { "-".to_string() } else { parts.join(",") }));
         }
+        // ---------------- owning iterators (C09, C03): into_iter / into_keys / into_values ----------------
+        "intoiter" | "intokeys" | "intovalues" => {
+            let take = n(1) as usize;
+            let total = m.len();
+            let hb = m.hasher().clone();
+            let snap: Vec<(u64, u64, u64)> = m.iter().map(|(k, v)| kvt(k, v)).collect();
+            let old = std::mem::replace(m, HashMap::with_hasher_in(hb, Ledger));
+            let mut got = Vec::new();
+            match w[0] {
+                "intoiter" => {
+                    let mut it = old.into_iter();
+                    for j in 0..take {
+                        let r = total - j.min(total);
+                        if it.len() != r || it.size_hint() != (r, Some(r)) {
+                            chk.push(format!("into_iter: len()={} size_hint={:?} but {} remain", it.len(), it.size_hint(), r));
+                        }
+                        match it.next() {
+                            Some((k, v)) => {
+                                got.push(kvt(&k, &v));
+                                held.push(Box::new((k, v)));
+                            }
+                            None => {
+                                if it.next().is_some() {
+                                    chk.push("into_iter: Some after None".into());
+                                }
+                                break;
+                            }
+                        }
+                    }
+                    if take > total + 1 {
+                        // fold over the (empty) rest must visit nothing
+                        let c = it.fold(0usize, |a, _| a + 1);
+                        if c != 0 {
+                            chk.push("into_iter: fold after exhaustion visits elements".into());
+                        }
+                    } else {
+                        drop(it); // the unconsumed rest is dropped by the iterator, then the block is freed
+                    }
+                }
+                "intokeys" => {
+                    let mut it = old.into_keys();
+                    for j in 0..take {
+                        let r = total - j.min(total);
+                        if it.len() != r || it.size_hint() != (r, Some(r)) {
+                            chk.push(format!("into_keys: len()={} size_hint={:?} but {} remain", it.len(), it.size_hint(), r));
+                        }
+                        match it.next() {
+                            Some(k) => {
+                                got.push((k.id(), k.stamp(), 0));
+                                held.push(Box::new(k));
+                            }
+                            None => break,
+                        }
+                    }
+                    let rest: Vec<K> = it.fold(Vec::new(), |mut a, k| {
+                        a.push(k);
+                        a
+                    });
+                    if got.len() + rest.len() != total {
+                        chk.push(format!("into_keys: next() x {} + fold yields {} of {} keys", got.len(), got.len() + rest.len(), total));
+                    }
+                    for k in rest {
+                        got.push((k.id(), k.stamp(), 0));
+                        held.push(Box::new(k));
+                    }
+                    // every key exactly once: compare with the snapshot, then report the full entries
+                    let mut a: Vec<(u64, u64)> = got.iter().map(|x| (x.0, x.1)).collect();
+                    let mut b: Vec<(u64, u64)> = snap.iter().map(|x| (x.0, x.1)).collect();
+                    a.sort();
+                    b.sort();
+                    if a != b {
+                        chk.push(format!("into_keys yields {:?}, stored keys are {:?}", a, b));
+                    }
+                    got = snap.clone();
+                }
+                _ => {
+                    let mut it = old.into_values();
+                    for j in 0..take {
+                        let r = total - j.min(total);
+                        if it.len() != r || it.size_hint() != (r, Some(r)) {
+                            chk.push(format!("into_values: len()={} size_hint={:?} but {} remain", it.len(), it.size_hint(), r));
+                        }
+                        match it.next() {
+                            Some(v) => {
+                                got.push((0, 0, v.val()));
+                                held.push(Box::new(v));
+                            }
+                            None => break,
+                        }
+                    }
+                    let rest: Vec<V> = it.fold(Vec::new(), |mut a, v| {
+                        a.push(v);
+                        a
+                    });
+                    if got.len() + rest.len() != total {
+                        chk.push(format!("into_values: next() x {} + fold yields {} of {} values", got.len(), got.len() + rest.len(), total));
+                    }
+                    for v in rest {
+                        got.push((0, 0, v.val()));
+                        held.push(Box::new(v));
+                    }
+                    let mut a: Vec<u64> = got.iter().map(|x| x.2).collect();
+                    let mut b: Vec<u64> = snap.iter().map(|x| x.2).collect();
+                    a.sort();
+                    b.sort();
+                    if a != b {
+                        chk.push(format!("into_values yields {:?}, stored values are {:?}", a, b));
+                    }
+                    got = snap.clone();
+                }
+            }
+            Out::List(got)
+        }
         // ---------------- leaking iterators / drains / entries (C02) ----------------
         "forget_drain" => {
             let take = n(1) as usize;
